@@ -38,3 +38,243 @@ def r5_prologues(ctx):
 
 
 RULES = [r1_top, r2_flags, r3_nodes, r4_set, r5_prologues]
+
+
+# ------------------------------------------------------------------ patricia tree kernels
+from ..tree import (walk, strip, is_call, is_ref, is_this, deref, same_expr, src, obj, callee)   # noqa: E402
+from .. import paths                                                                             # noqa: E402
+from ..match import (strip_move, is_param, rets, resolve_local, local_decls, writes_to, cmp_parts)   # noqa: E402
+import itertools                                                                                 # noqa: E402
+
+PT = "include/crab/domains/patricia_trees.hpp"
+TREE = "ikos::patricia_trees_impl::tree"
+
+
+def _eval3(c, val):
+    c = strip(c)
+    if not isinstance(c, dict):
+        return None
+    v = val(c)
+    if v is not None:
+        return v
+    k = c.get("k")
+    if k == "un" and c.get("op") == "!":
+        r = _eval3(c.get("e"), val)
+        return None if r is None else (not r)
+    if k == "call" and c.get("op") == "!" and "o" in c and not c.get("a"):
+        r = _eval3(c.get("o"), val)
+        return None if r is None else (not r)
+    if k == "bin" and c.get("op") in ("&&", "||"):
+        a, b = _eval3(c.get("L"), val), _eval3(c.get("R"), val)
+        if c["op"] == "&&":
+            if a is False or b is False:
+                return False
+            return True if (a is True and b is True) else None
+        if a is True or b is True:
+            return True
+        return False if (a is False and b is False) else None
+    return None
+
+
+class _Unknown(Exception):
+    pass
+
+
+def _run(n, val):
+    """interpret a statement tree whose only effects are `return <bool literal>`; conditions are decided by val.
+    returns True / False (value returned) or None (falls through)."""
+    if not isinstance(n, dict):
+        return None
+    k = n.get("k")
+    if k == "seq":
+        for x in n.get("b", []):
+            r = _run(x, val)
+            if r is not None:
+                return r
+        return None
+    if k == "if":
+        c = _eval3(n.get("c"), val)
+        if c is None:
+            raise _Unknown(src(n.get("c"))[:60])
+        if c:
+            return _run(n.get("t"), val)
+        return _run(n.get("e"), val) if "e" in n else None
+    if k == "ret":
+        v = strip(n.get("v"))
+        if isinstance(v, dict) and v.get("k") == "lit" and v.get("v") in ("true", "false"):
+            return v["v"] == "true"
+        raise _Unknown("return " + src(n.get("v"))[:40])
+    if k in ("decl", "call", "asg", "label"):
+        return None
+    raise _Unknown(k)
+
+
+def r6_compare_leaf(ctx):
+    ctx.rule("C19.r6", "patricia tree::compare, leaf case: the answer is `false` exactly when the pointwise order fails - the bound "
+             "values are not ordered, the leaf's key is missing on the side where missing means less, or the other tree binds ANOTHER "
+             "key (it is a node, or a leaf with a different key) on the side where missing means more (32-row truth table)", floor=8)
+    fs = ctx.db.fns(PT, pk=TREE + "::compare")
+    if not ctx.need(fs, "tree::compare"):
+        return
+    for fn in fs:
+        body = fn["body"]
+        d = local_decls(body)
+        ps = fn.get("params", [])
+        if len(ps) != 4:
+            ctx.undecided("tree::compare no longer has four parameters", fn, body)
+            continue
+        # the block guarded by s->is_leaf()
+        blk = None
+        for n in walk(body):
+            if n.get("k") == "if" and is_call(strip(n.get("c")), name="is_leaf") and is_param(deref(strip(n["c"]).get("o")), fn, 0):
+                blk = n.get("t")
+                break
+        if blk is None:
+            ctx.undecided("tree::compare: the `s->is_leaf()` case was not found", fn, body)
+            continue
+        # locals: value_ = t->find(key)
+        found_ids = {dd["id"] for dd in d.values() if "i" in dd and is_call(strip(dd["i"]), name="find") and
+                     is_param(deref(strip(dd["i"]).get("o")), fn, 1)}
+        if not found_ids:
+            ctx.undecided("tree::compare: lookup of the leaf's key in the other tree not found", fn, blk)
+            continue
+        # operand order of the value comparison
+        leqs = [n for n in walk(blk) if is_call(n, name="leq") and len(n.get("a", [])) == 2]
+        okorder = False
+        if len(leqs) == 1:
+            def side(e):
+                r = resolve_local(body, e, d)
+                r = strip(r)
+                if isinstance(r, dict) and r.get("k") == "cond" and is_param(r.get("c"), fn, 3):
+                    def mine(x):
+                        x = resolve_local(body, x, d)
+                        return not any(isinstance(y, dict) and y.get("k") == "ref" and y.get("id") in found_ids for y in walk(x))
+                    return ("own" if mine(r.get("t")) else "other", "own" if mine(r.get("e")) else "other")
+                return None
+            okorder = side(leqs[0]["a"][0]) == ("own", "other") and side(leqs[0]["a"][1]) == ("other", "own")
+        if not okorder:
+            ctx.bad("tree::compare, leaf case: po.leq must be called as leq(left, right) with left = (left_to_right ? leaf value : found "
+                    "value) and right the opposite", fn, leqs[0] if leqs else blk, sig="compare-leaf-operands")
+            continue
+        nbad = 0
+        for found, tleaf, ltr, dtop, leq in itertools.product((False, True), repeat=5):
+            def val(c, found=found, tleaf=tleaf, ltr=ltr, dtop=dtop, leq=leq):
+                if c.get("k") == "ref":
+                    if c.get("id") in found_ids:
+                        return found
+                    if c.get("rk") == "param" and c.get("id") == ps[3]["id"]:
+                        return ltr
+                if c.get("k") == "call" and callee(c):
+                    nm = callee(c)["name"]
+                    if nm == "is_leaf" and is_param(deref(c.get("o")), fn, 1):
+                        return tleaf
+                    if nm == "default_is_top":
+                        return dtop
+                    if nm == "leq":
+                        return leq
+                    if nm == "operator bool" and is_ref(c.get("o")) and strip(c["o"]).get("id") in found_ids:
+                        return found
+                if c.get("k") == "cast":
+                    return None
+                return None
+            try:
+                got = _run(blk, val)
+            except _Unknown as e:
+                ctx.undecided("tree::compare, leaf case: cannot evaluate `%s`" % e, fn, blk)
+                nbad = -1
+                break
+            other_key = (not tleaf) or (not found)
+            exp_false = (found and not leq) or ((not found) and (ltr != dtop)) or (other_key and (ltr == dtop))
+            exp = False if exp_false else None
+            if got != exp:
+                nbad += 1
+                if nbad == 1:
+                    ctx.bad("tree::compare, leaf case, answers %s where the pointwise order says %s: key %s in the other tree, other tree is a "
+                            "%s, %s, default value is %s%s" %
+                            ("`false`" if got is False else "`included so far`", "`false`" if exp is False else "`included so far`",
+                             "found" if found else "NOT found", "leaf" if tleaf else "node",
+                             "leaf is the left operand" if ltr else "leaf is the right operand", "top" if dtop else "bottom",
+                             (", values %sordered" % ("" if leq else "NOT ")) if found else ""), fn, blk,
+                            sig="compare-leaf-table:found=%d,tleaf=%d,ltr=%d,top=%d" % (found, tleaf, ltr, dtop))
+        if nbad == 0:
+            ctx.ok("compare leaf case agrees with the pointwise order on all 32 rows", fn, blk)
+
+
+def r7_reuse(ctx):
+    ctx.rule("C19.r7", "patricia merge: an operand tree X is returned in place of a freshly built result only after the result was "
+             "compared with X itself (leaf: eq(new value, X's value); node: new branches == X's branches)", floor=20)
+    fs = ctx.db.fns(PT, pk=TREE + "::merge")
+    if not ctx.need(fs, "tree::merge"):
+        return
+    for fn in fs:
+        body = fn["body"]
+        d = local_decls(body)
+        g = paths.guards(body)
+        ps = fn.get("params", [])
+
+        def which(e):
+            e = strip_move(e)
+            for i in (0, 1):
+                if is_param(e, fn, i):
+                    return i
+            return None
+
+        def owner_of_value(e):
+            """which operand tree the value expression belongs to: B.second with B = X->binding(), or *V with V = X->find(..)"""
+            e = strip(e)
+            for x in walk(e):
+                if x.get("k") == "ref" and x.get("rk") == "local":
+                    dd = d.get(x.get("id")) or {}
+                    i = strip(dd.get("i")) if "i" in dd else None
+                    for y in walk(i):
+                        if is_call(y, name=("binding", "find")):
+                            w = which(deref(y.get("o")))
+                            if w is not None:
+                                return w
+            return None
+        n = 0
+        for r in rets(body):
+            v = strip_move(r.get("v"))
+            if not (isinstance(v, dict) and v.get("k") in ("ctor", "ilist") and len(v.get("a", [])) == 2):
+                continue
+            X = which(v["a"][1])
+            if X is None:
+                continue
+            gs = [(c, p) for c, p in g.get(id(r), ()) if not isinstance(c, tuple)]
+            # the innermost guard that compares a NEW result with an operand
+            cmpg = None
+            for c, p in reversed(gs):
+                cs = strip(c)
+                if p and (is_call(cs, op="()") or (isinstance(cs, dict) and cs.get("k") == "bin" and cs.get("op") == "&&") or cmp_parts(cs)):
+                    if any(is_call(y, name=("left_branch", "right_branch")) for y in walk(cs)) or \
+                            (isinstance(cs, dict) and cs.get("k") == "call" and cs.get("op") == "()"):
+                        cmpg = cs
+                        break
+            if cmpg is None:
+                # returned without a comparison: the neutral cases (other operand empty / default not absorbing)
+                continue
+            n += 1
+            if cmpg.get("k") == "call" and cmpg.get("op") == "()":
+                a = cmpg.get("a", [])
+                owners = [owner_of_value(x) for x in a]
+                owners = [o for o in owners if o is not None]
+                good = owners == [X]
+                what = "eq(new value, value of %s)" % (ps[owners[0]]["n"] if owners else "?")
+            else:
+                br = [y for y in walk(cmpg) if is_call(y, name=("left_branch", "right_branch"))]
+                owners = {which(deref(y.get("o"))) for y in br}
+                names = {callee(y)["name"] for y in br}
+                good = owners == {X} and names == {"left_branch", "right_branch"}
+                what = "new branches == branches of %s" % "/".join(ps[o]["n"] for o in owners if o is not None)
+            if good:
+                ctx.ok("merge returns %s after %s" % (ps[X]["n"], what), fn, r)
+            else:
+                ctx.bad("tree::merge returns the operand `%s` unchanged after testing `%s`, i.e. after comparing the result with the OTHER "
+                        "operand: when the combined value equals the other operand's value, `%s` (a different value) is returned as the "
+                        "result of the merge" % (ps[X]["n"], src(cmpg)[:70], ps[X]["n"]), fn, r,
+                        sig="merge-reuse:%s:%s" % (ps[X]["n"], what))
+        if n == 0:
+            ctx.fail("rule C19.r7: no reuse shortcut found in tree::merge")
+
+
+RULES += [r6_compare_leaf, r7_reuse]
